@@ -462,8 +462,9 @@ func c16GenTrace(h *c16, rng *Rng, emit func(string) string, nOps int) {
 	emit("end")
 }
 
-// c16Corpus: the shortest histories for each suspected defect (they are hypotheses: every verdict
-// comes from the monitors evaluating the real code).
+// c16Corpus: the shortest histories for each defect, found or suspected, repaired or not (they are
+// hypotheses: every verdict comes from the monitors evaluating the real code; on a repaired tree the
+// corresponding monitors simply stay silent).
 func c16Corpus(h *c16, emit func(string) string, endTrace func()) {
 	dym := c16DYM
 	def := dym.String()
